@@ -1,9 +1,25 @@
 import QuickAdd.Lemmas.RulesWF
+import QuickAdd.Lemmas.IntervalOrdRules
 /-! One lemma per registered production (its own elaboration budget), then the statement for all of them.
    Per rule the argument list is destructured to the production's arity; every shape the dispatcher does not accept reduces to
    the `unmodelled` error by evaluation (`nomatch`). -/
 namespace QuickAdd
 open Gen
+
+/-- field ranges (`OkV0`) and the order clause (`Ord`) together are `OkV` -/
+theorem okv_of {v : Val} (h0 : v.OkV0) (h1 : v.Ord) : v.OkV := by
+  cases v with
+  | tok k => exact h0
+  | time t => exact h0
+  | interval f t => exact ⟨h0.1, h0.2, h1⟩
+  | duration n u => exact h1
+
+/-- what the two interval productions that do not compare their ends need from their signature: the first end is a bare
+    time of day / part of day, hence carries no date (`Search.applyRule_ok` derives it from the rule's registered predicates) -/
+def ArgsPred : RuleId → List Val → Prop
+  | .ruleTODTOD, [.time a, _, _] => a.isTOD = true
+  | .rulePODPOD, [.time a, _, _] => a.isPOD = true
+  | _, _ => True
 
 theorem applyId_ok_ruleAbsorbOnTime (ts : Ts) (hts : ts.Valid) (args : List Val) (hargs : ∀ a ∈ args, a.Ok) (v : Val)
     (h : applyId .ruleAbsorbOnTime ts args = .ok (some v)) : v.OkV := by
@@ -263,96 +279,96 @@ theorem applyId_ok_rulePODDate (ts : Ts) (hts : ts.Valid) (args : List Val) (har
 theorem applyId_ok_ruleBeforeTime (ts : Ts) (hts : ts.Valid) (args : List Val) (hargs : ∀ a ∈ args, a.Ok) (v : Val)
     (h : applyId .ruleBeforeTime ts args = .ok (some v)) : v.OkV := by
     rcases args with _ | ⟨a, _ | ⟨b, _ | ⟨c, rest⟩⟩⟩ <;> (try cases a) <;> (try cases b) <;>
-      first | (exact ruleBeforeTime_ok _ _ (mem2 hargs) v h) | (exact nomatch h)
+      first | (exact okv_of (ruleBeforeTime_ok _ _ (mem2 hargs) v h) (ruleBeforeTime_ord _ _ v h)) | (exact nomatch h)
 
 theorem applyId_ok_ruleAfterTime (ts : Ts) (hts : ts.Valid) (args : List Val) (hargs : ∀ a ∈ args, a.Ok) (v : Val)
     (h : applyId .ruleAfterTime ts args = .ok (some v)) : v.OkV := by
     rcases args with _ | ⟨a, _ | ⟨b, _ | ⟨c, rest⟩⟩⟩ <;> (try cases a) <;> (try cases b) <;>
-      first | (exact ruleAfterTime_ok _ _ (mem2 hargs) v h) | (exact nomatch h)
+      first | (exact okv_of (ruleAfterTime_ok _ _ (mem2 hargs) v h) (ruleAfterTime_ord _ _ v h)) | (exact nomatch h)
 
 theorem applyId_ok_ruleDateDate (ts : Ts) (hts : ts.Valid) (args : List Val) (hargs : ∀ a ∈ args, a.Ok) (v : Val)
     (h : applyId .ruleDateDate ts args = .ok (some v)) : v.OkV := by
     rcases args with _ | ⟨a, _ | ⟨b, _ | ⟨c, _ | ⟨d, rest⟩⟩⟩⟩ <;> (try cases a) <;> (try cases b) <;> (try cases c) <;>
-      first | (exact ruleDateDate_ok _ _ (mem1 hargs) (mem3 hargs) v h) | (exact nomatch h)
+      first | (exact okv_of (ruleDateDate_ok _ _ (mem1 hargs) (mem3 hargs) v h) (ruleDateDate_ord _ _ v h)) | (exact nomatch h)
 
 theorem applyId_ok_ruleDOMDate (ts : Ts) (hts : ts.Valid) (args : List Val) (hargs : ∀ a ∈ args, a.Ok) (v : Val)
     (h : applyId .ruleDOMDate ts args = .ok (some v)) : v.OkV := by
     rcases args with _ | ⟨a, _ | ⟨b, _ | ⟨c, _ | ⟨d, rest⟩⟩⟩⟩ <;> (try cases a) <;> (try cases b) <;> (try cases c) <;>
-      first | (exact ruleDOMDate_ok _ _ (mem1 hargs) (mem3 hargs) v h) | (exact nomatch h)
+      first | (exact okv_of (ruleDOMDate_ok _ _ (mem1 hargs) (mem3 hargs) v h) (ruleDOMDate_ord _ _ v h)) | (exact nomatch h)
 
 theorem applyId_ok_ruleDateDOM (ts : Ts) (hts : ts.Valid) (args : List Val) (hargs : ∀ a ∈ args, a.Ok) (v : Val)
     (h : applyId .ruleDateDOM ts args = .ok (some v)) : v.OkV := by
     rcases args with _ | ⟨a, _ | ⟨b, _ | ⟨c, _ | ⟨d, rest⟩⟩⟩⟩ <;> (try cases a) <;> (try cases b) <;> (try cases c) <;>
-      first | (exact ruleDateDOM_ok _ _ (mem1 hargs) (mem3 hargs) v h) | (exact nomatch h)
+      first | (exact okv_of (ruleDateDOM_ok _ _ (mem1 hargs) (mem3 hargs) v h) (ruleDateDOM_ord _ _ v h)) | (exact nomatch h)
 
 theorem applyId_ok_ruleDOYDate (ts : Ts) (hts : ts.Valid) (args : List Val) (hargs : ∀ a ∈ args, a.Ok) (v : Val)
     (h : applyId .ruleDOYDate ts args = .ok (some v)) : v.OkV := by
     rcases args with _ | ⟨a, _ | ⟨b, _ | ⟨c, _ | ⟨d, rest⟩⟩⟩⟩ <;> (try cases a) <;> (try cases b) <;> (try cases c) <;>
-      first | (exact ruleDOYDate_ok _ _ (mem1 hargs) (mem3 hargs) v h) | (exact nomatch h)
+      first | (exact okv_of (ruleDOYDate_ok _ _ (mem1 hargs) (mem3 hargs) v h) (ruleDOYDate_ord _ _ v h)) | (exact nomatch h)
 
 theorem applyId_ok_ruleDateTimeDateTime (ts : Ts) (hts : ts.Valid) (args : List Val) (hargs : ∀ a ∈ args, a.Ok) (v : Val)
     (h : applyId .ruleDateTimeDateTime ts args = .ok (some v)) : v.OkV := by
     rcases args with _ | ⟨a, _ | ⟨b, _ | ⟨c, _ | ⟨d, rest⟩⟩⟩⟩ <;> (try cases a) <;> (try cases b) <;> (try cases c) <;>
-      first | (exact ruleDateTimeDateTime_ok _ _ (mem1 hargs) (mem3 hargs) v h) | (exact nomatch h)
+      first | (exact okv_of (ruleDateTimeDateTime_ok _ _ (mem1 hargs) (mem3 hargs) v h) (ruleDateTimeDateTime_ord _ _ v h)) | (exact nomatch h)
 
-theorem applyId_ok_ruleTODTOD (ts : Ts) (hts : ts.Valid) (args : List Val) (hargs : ∀ a ∈ args, a.Ok) (v : Val)
+theorem applyId_ok_ruleTODTOD (ts : Ts) (hts : ts.Valid) (args : List Val) (hargs : ∀ a ∈ args, a.Ok) (hp : ArgsPred .ruleTODTOD args) (v : Val)
     (h : applyId .ruleTODTOD ts args = .ok (some v)) : v.OkV := by
     rcases args with _ | ⟨a, _ | ⟨b, _ | ⟨c, _ | ⟨d, rest⟩⟩⟩⟩ <;> (try cases a) <;> (try cases b) <;> (try cases c) <;>
-      first | (exact ruleTODTOD_ok _ _ (mem1 hargs) (mem3 hargs) v h) | (exact nomatch h)
+      first | (exact okv_of (ruleTODTOD_ok _ _ (mem1 hargs) (mem3 hargs) v h) (ruleTODTOD_ord _ _ hp v h)) | (exact nomatch h)
 
-theorem applyId_ok_rulePODPOD (ts : Ts) (hts : ts.Valid) (args : List Val) (hargs : ∀ a ∈ args, a.Ok) (v : Val)
+theorem applyId_ok_rulePODPOD (ts : Ts) (hts : ts.Valid) (args : List Val) (hargs : ∀ a ∈ args, a.Ok) (hp : ArgsPred .rulePODPOD args) (v : Val)
     (h : applyId .rulePODPOD ts args = .ok (some v)) : v.OkV := by
     rcases args with _ | ⟨a, _ | ⟨b, _ | ⟨c, _ | ⟨d, rest⟩⟩⟩⟩ <;> (try cases a) <;> (try cases b) <;> (try cases c) <;>
-      first | (exact rulePODPOD_ok _ _ (mem1 hargs) (mem3 hargs) v h) | (exact nomatch h)
+      first | (exact okv_of (rulePODPOD_ok _ _ (mem1 hargs) (mem3 hargs) v h) (rulePODPOD_ord _ _ hp v h)) | (exact nomatch h)
 
 theorem applyId_ok_ruleDateInterval (ts : Ts) (hts : ts.Valid) (args : List Val) (hargs : ∀ a ∈ args, a.Ok) (v : Val)
     (h : applyId .ruleDateInterval ts args = .ok (some v)) : v.OkV := by
     rcases args with _ | ⟨a, _ | ⟨b, _ | ⟨c, rest⟩⟩⟩ <;> (try cases a) <;> (try cases b) <;>
-      first | (exact ruleDateInterval_ok _ _ _ (mem1 hargs) (mem2 hargs).1 (mem2 hargs).2 v h) | (exact nomatch h)
+      first | (exact okv_of (ruleDateInterval_ok _ _ _ (mem1 hargs) (mem2 hargs).1 (mem2 hargs).2.1 v h) (ruleDateInterval_ord _ _ _ v h)) | (exact nomatch h)
 
 theorem applyId_ok_rulePODInterval (ts : Ts) (hts : ts.Valid) (args : List Val) (hargs : ∀ a ∈ args, a.Ok) (v : Val)
     (h : applyId .rulePODInterval ts args = .ok (some v)) : v.OkV := by
     rcases args with _ | ⟨a, _ | ⟨b, _ | ⟨c, rest⟩⟩⟩ <;> (try cases a) <;> (try cases b) <;>
-      first | (exact rulePODInterval_ok _ _ _ (mem2 hargs).1 (mem2 hargs).2 v h) | (exact nomatch h)
+      first | (exact okv_of (rulePODInterval_ok _ _ _ (mem2 hargs).1 (mem2 hargs).2.1 v h) (rulePODInterval_ord _ _ _ v h)) | (exact nomatch h)
 
 theorem applyId_ok_ruleDigitDuration (ts : Ts) (hts : ts.Valid) (args : List Val) (hargs : ∀ a ∈ args, a.Ok) (v : Val)
     (h : applyId .ruleDigitDuration ts args = .ok (some v)) : v.OkV := by
     rcases args with _ | ⟨a, _ | ⟨b, rest⟩⟩ <;> (try cases a) <;>
-      first | (exact ruleDigitDuration_ok _ v h) | (exact nomatch h)
+      first | (exact okv_of (ruleDigitDuration_ok _ v h) (ruleDigitDuration_ord _ v h)) | (exact nomatch h)
 
 theorem applyId_ok_ruleNamedNumberDuration (ts : Ts) (hts : ts.Valid) (args : List Val) (hargs : ∀ a ∈ args, a.Ok) (v : Val)
     (h : applyId .ruleNamedNumberDuration ts args = .ok (some v)) : v.OkV := by
     rcases args with _ | ⟨a, _ | ⟨b, rest⟩⟩ <;> (try cases a) <;>
-      first | (exact ruleNamedNumberDuration_ok _ v h) | (exact nomatch h)
+      first | (exact okv_of (ruleNamedNumberDuration_ok _ v h) (ruleNamedNumberDuration_ord _ v h)) | (exact nomatch h)
 
 theorem applyId_ok_ruleDurationHalf (ts : Ts) (hts : ts.Valid) (args : List Val) (hargs : ∀ a ∈ args, a.Ok) (v : Val)
     (h : applyId .ruleDurationHalf ts args = .ok (some v)) : v.OkV := by
     rcases args with _ | ⟨a, _ | ⟨b, rest⟩⟩ <;> (try cases a) <;>
-      first | (exact ruleDurationHalf_ok _ v h) | (exact nomatch h)
+      first | (exact okv_of (ruleDurationHalf_ok _ v h) (ruleDurationHalf_ord _ v h)) | (exact nomatch h)
 
 theorem applyId_ok_ruleIntervalConjDuration (ts : Ts) (hts : ts.Valid) (args : List Val) (hargs : ∀ a ∈ args, a.Ok) (v : Val)
     (h : applyId .ruleIntervalConjDuration ts args = .ok (some v)) : v.OkV := by
     rcases args with _ | ⟨a, _ | ⟨b, _ | ⟨c, _ | ⟨d, rest⟩⟩⟩⟩ <;> (try cases a) <;> (try cases b) <;> (try cases c) <;>
-      first | (exact ruleDurationInterval_ok _ _ _ _ (mem1 hargs).1 (mem1 hargs).2 v h) | (exact nomatch h)
+      first | (exact okv_of (ruleDurationInterval_ok _ _ _ _ (mem1 hargs).1 (mem1 hargs).2.1 v h) (ruleDurationInterval_ord _ _ _ _ (mem1 hargs).2.2 v h)) | (exact nomatch h)
 
 theorem applyId_ok_ruleIntervalDuration (ts : Ts) (hts : ts.Valid) (args : List Val) (hargs : ∀ a ∈ args, a.Ok) (v : Val)
     (h : applyId .ruleIntervalDuration ts args = .ok (some v)) : v.OkV := by
     rcases args with _ | ⟨a, _ | ⟨b, _ | ⟨c, rest⟩⟩⟩ <;> (try cases a) <;> (try cases b) <;>
-      first | (exact ruleDurationInterval_ok _ _ _ _ (mem1 hargs).1 (mem1 hargs).2 v h) | (exact nomatch h)
+      first | (exact okv_of (ruleDurationInterval_ok _ _ _ _ (mem1 hargs).1 (mem1 hargs).2.1 v h) (ruleDurationInterval_ord _ _ _ _ (mem1 hargs).2.2 v h)) | (exact nomatch h)
 
 theorem applyId_ok_ruleDurationInterval (ts : Ts) (hts : ts.Valid) (args : List Val) (hargs : ∀ a ∈ args, a.Ok) (v : Val)
     (h : applyId .ruleDurationInterval ts args = .ok (some v)) : v.OkV := by
     rcases args with _ | ⟨a, _ | ⟨b, _ | ⟨c, rest⟩⟩⟩ <;> (try cases a) <;> (try cases b) <;>
-      first | (exact ruleDurationInterval_ok _ _ _ _ (mem2 hargs).1 (mem2 hargs).2 v h) | (exact nomatch h)
+      first | (exact okv_of (ruleDurationInterval_ok _ _ _ _ (mem2 hargs).1 (mem2 hargs).2.1 v h) (ruleDurationInterval_ord _ _ _ _ (mem2 hargs).2.2 v h)) | (exact nomatch h)
 
 theorem applyId_ok_ruleTimeDuration (ts : Ts) (hts : ts.Valid) (args : List Val) (hargs : ∀ a ∈ args, a.Ok) (v : Val)
     (h : applyId .ruleTimeDuration ts args = .ok (some v)) : v.OkV := by
     rcases args with _ | ⟨a, _ | ⟨b, _ | ⟨c, _ | ⟨d, rest⟩⟩⟩⟩ <;> (try cases a) <;> (try cases b) <;> (try cases c) <;>
-      first | (exact ruleTimeDuration_ok _ _ _ (mem1 hargs) v h) | (exact nomatch h)
+      first | (exact okv_of (ruleTimeDuration_ok _ _ _ (mem1 hargs) v h) (ruleTimeDuration_ord _ _ _ (mem3 hargs) v h)) | (exact nomatch h)
 
 /-- **every production of the rule base keeps its result well formed**: for every rule, every valid reference time and all
     arguments that are well formed (values) or carry in-range digit groups (pattern matches), a successful result is well formed -/
-theorem rules_preserve_okv (r : RuleId) (ts : Ts) (hts : ts.Valid) (args : List Val) (hargs : ∀ a ∈ args, a.Ok) (v : Val)
+theorem rules_preserve_okv (r : RuleId) (ts : Ts) (hts : ts.Valid) (args : List Val) (hargs : ∀ a ∈ args, a.Ok) (hp : ArgsPred r args) (v : Val)
     (h : applyId r ts args = .ok (some v)) : v.OkV := by
   cases r
   case ruleAbsorbOnTime => exact applyId_ok_ruleAbsorbOnTime ts hts args hargs v h
@@ -413,8 +429,8 @@ theorem rules_preserve_okv (r : RuleId) (ts : Ts) (hts : ts.Valid) (args : List 
   case ruleDateDOM => exact applyId_ok_ruleDateDOM ts hts args hargs v h
   case ruleDOYDate => exact applyId_ok_ruleDOYDate ts hts args hargs v h
   case ruleDateTimeDateTime => exact applyId_ok_ruleDateTimeDateTime ts hts args hargs v h
-  case ruleTODTOD => exact applyId_ok_ruleTODTOD ts hts args hargs v h
-  case rulePODPOD => exact applyId_ok_rulePODPOD ts hts args hargs v h
+  case ruleTODTOD => exact applyId_ok_ruleTODTOD ts hts args hargs hp v h
+  case rulePODPOD => exact applyId_ok_rulePODPOD ts hts args hargs hp v h
   case ruleDateInterval => exact applyId_ok_ruleDateInterval ts hts args hargs v h
   case rulePODInterval => exact applyId_ok_rulePODInterval ts hts args hargs v h
   case ruleDigitDuration => exact applyId_ok_ruleDigitDuration ts hts args hargs v h
@@ -425,7 +441,7 @@ theorem rules_preserve_okv (r : RuleId) (ts : Ts) (hts : ts.Valid) (args : List 
   case ruleDurationInterval => exact applyId_ok_ruleDurationInterval ts hts args hargs v h
   case ruleTimeDuration => exact applyId_ok_ruleTimeDuration ts hts args hargs v h
 
-theorem rules_preserve_ok (r : RuleId) (ts : Ts) (hts : ts.Valid) (args : List Val) (hargs : ∀ a ∈ args, a.Ok) (v : Val)
-    (h : applyId r ts args = .ok (some v)) : v.Ok := (rules_preserve_okv r ts hts args hargs v h).ok
+theorem rules_preserve_ok (r : RuleId) (ts : Ts) (hts : ts.Valid) (args : List Val) (hargs : ∀ a ∈ args, a.Ok) (hp : ArgsPred r args) (v : Val)
+    (h : applyId r ts args = .ok (some v)) : v.Ok := (rules_preserve_okv r ts hts args hargs hp v h).ok
 
 end QuickAdd
